@@ -113,8 +113,9 @@ Print Assumptions C03_only_reported.
            or off; a value: the node is listed with a temperature) belongs to a node whose Arg IN THIS LIST was changed by
            the device half of a pass after the command was created and no later than this pass.
    "Changed by the device half of a pass" is sharpened to "written by a setplugstate / setresult statement executed for an
-   action of THIS command" by C03_device_writes_are_statements (device layer) and C03_end_to_end_reported (all runs) at the
-   end of this file; what is still open is said there. *)
+   action of THIS command" by C03_device_writes_are_statements (device layer) and C03_end_to_end_reported (all runs) further
+   down; whose expect the written text stems from, and that no other part of a pass ends a query, by C03_reported_by_own_expect and
+   C03_terminal_only_from_completions at the end of this file; what is NOT claimed is said there. *)
 From PM Require Import Model.Device Model.Daemon Spec.Proto Proofs.DaemonLedger Proofs.DaemonSlots Proofs.DaemonPending Proofs.DaemonE2E.
 From PM Require Proofs.DaemonE2EEx Properties.C07.
 Theorem C03_end_to_end : forall expand_str ranged_sorted ranged_plain sorted rmatch compress short_circuit st0 now plans rs r,
@@ -295,14 +296,14 @@ Print Assumptions C03_write_events_spelled_out.
          was made after the command that owns s was created).
    Contrapositive: a node whose device could not be reached, timed out, or sent nothing the script's setplugstate accepts has no
    setplugstate event with state on / off, hence is listed unknown.
-   (* OPEN *) not covered by a theorem:
-     - that the sub-matches a setplugstate / setresult reads (model_xm: those of the device's LAST expect) were captured by an
-       expect of the SAME action, i.e. from bytes the device sent in answer to this query: true when every setplugstate /
-       setresult of a script is preceded by an expect of that script (Spec/SpecCheckSpec.v sub_safe, which C17 checks on
-       every shipped specification; every expect first resets the sub-matches: Script.process_expect), but not derived here
-       from a hypothesis on the scripts - a script that reads $N without an expect of its own would read the sub-matches an
-       EARLIER action left on the device; that an expect consumes bytes read from the device's descriptor is C08 (OExpect);
-     - that the CLIENT half of a pass never emits a command's terminal line (by reading: parse_busy_q). *)
+   The two points that earlier versions of this file left to reading are theorems now, at the end of the file:
+     - WHOSE expect the sub-matches of a setplugstate / setresult come from (model_xm: those of the device's LAST expect; every expect
+       first resets them: Script.process_expect): C03_reported_by_own_expect - for every specification that passes the static check
+       own_ok (every shipped one; every one that passes C17's checker) they were captured by an expect executed earlier BY THE
+       SAME ACTION in the same run of its script.  A script that reads $N without an expect of its own does read what an EARLIER
+       action left on the device: C03_own_expect_needed.  That an expect consumes bytes read from the device's descriptor is C08 (OExpect);
+     - that the CLIENT half of a pass never emits a query's terminal line nor drops / replaces the query:
+       C03_terminal_only_from_completions (C02_client_half_keeps_commands for any command). *)
 Theorem C03_end_to_end_reported : forall expand_str ranged_sorted ranged_plain sorted rmatch compress short_circuit st0 now plans rs r,
   boot compress st0 -> Z.of_nat (length rs) < INT_MAX - 1 ->
   exists st1 o1, dinit st0 now plans = Ok (st1, o1) /\
@@ -424,3 +425,285 @@ Proof. exact (conj DaemonE2EEx.e2e_boot (conj DaemonE2EWritesEx.query_reports_ex
 Print Assumptions C03_end_to_end_reported.
 Print Assumptions C03_report_ledger_spelled_out.
 Print Assumptions C03_listed_was_reported.
+
+(* ------------------------------------------------------------------------------------------------------------------
+   THE TERMINAL LINE OF A QUERY COMES FROM ITS LAST COMPLETION ONLY (Proofs/DaemonE2ETerminal.v; the twin of
+   C02_terminal_only_from_completions, where the statement is explained).  Every pass of every run from start-up, for every client
+   that has a QUERY in progress when the pass BEGINS: either the client half destroys the record because poll reported POLLERR /
+   POLLNVAL for its descriptor (nothing is written; the id is gone), or after the client half the SAME command record is in progress
+   and the output gained refusals (208 / 203) only (BRel, refusals: C02_refusals_spelled_out), and after the callback half: the
+   query goes on and the pass wrote informational lines only, or it ended - only then is cl_cmd None - with the reply of
+   C03_end_to_end (query_done: 302 / 303 lines, 103 / 211, prompt), the callback half having delivered its last completion: before
+   it ok + fail < enq, after it ok + fail = enq, and the pass's event list holds an EvComplete for this id. *)
+From PM Require Import Proofs.DaemonFrame Proofs.DaemonE2ETerminal.
+Theorem C03_terminal_only_from_completions : forall expand_str ranged_sorted ranged_plain sorted rmatch compress short_circuit st0 now plans rs r,
+  boot compress st0 -> Z.of_nat (length rs) < INT_MAX - 1 ->
+  exists st1 o1, dinit st0 now plans = Ok (st1, o1) /\
+  match drun expand_str ranged_sorted ranged_plain sorted rmatch compress short_circuit st1 rs [] with
+  | Ok (st, _) =>
+    let L := drun_led expand_str ranged_sorted ranged_plain sorted rmatch compress short_circuit st1 rs lzero in
+    let W := drun_wr expand_str ranged_sorted ranged_plain sorted rmatch compress short_circuit st1 rs (winit (dm_store st1)) in
+    match cli_post_poll expand_str ranged_sorted ranged_plain sorted st r with
+    | Ok (sta, e1) =>
+      match dev_loop ranged_sorted rmatch compress short_circuit (length (dm_devs sta)) (r_now r) sta O (r_dev r) None [] with
+      | Ok (stb, tmo, e2) =>
+        dstep expand_str ranged_sorted ranged_plain sorted rmatch compress short_circuit st r = Ok (stb, mkDout (e1 ++ e2) tmo) /\
+        let La := cpp_led expand_str ranged_sorted ranged_plain sorted st r L in
+        let Lb := dstep_led expand_str ranged_sorted ranged_plain sorted rmatch compress short_circuit st r L in
+        let Wb := dstep_wr expand_str ranged_sorted ranged_plain sorted rmatch compress short_circuit st r W in
+        forall p x0 k0, nth_error (dm_clients st) p = Some x0 -> cl_cmd (dc x0) = Some k0 -> is_query (k_com k0) = true ->
+          (ci_bad (nth p (r_cli r) cin0) = true /\ ~ In (cid x0) (ids sta) /\ ~ In (cid x0) (ids stb)) \/
+          exists pa xa rf, nth_error (dm_clients sta) pa = Some xa /\ BRel x0 k0 xa rf /\
+            exists xb new, nth_error (dm_clients stb) pa = Some xb /\ cid xb = cid x0 /\
+              cl_out (dc xb) = cl_out (dc x0) ++ render (rf ++ new) /\
+              (forall toks0, cli_okT x0 toks0 -> cli_okT xb (toks0 ++ rf ++ new)) /\
+              match cl_cmd (dc xb) with
+              | Some k => Forall info_tok new /\ k_com k = k_com k0 /\ k_args k = k_args k0
+              | None =>
+                  query_done ranged_sorted (Lb (cid xa)) (Wb (k_args k0)) (dc xa) (k_com k0) (nth (k_args k0) (dm_store stb) []) new /\
+                  l_ok (La (cid x0)) + l_fail (La (cid x0)) < l_enq (La (cid x0)) /\
+                  exists j err msg, In (SysDev j (EvComplete (cid x0) err msg)) e2
+              end
+      | _ => False
+      end
+    | _ => False
+    end
+  | _ => False
+  end.
+Proof. exact c03_terminal_only_from_completions. Qed.
+(* non-vacuity: C03_end_to_end_nonvacuous is a pass of this kind (client 1 has `status n1` in progress when the fifth pass begins; the
+   callback half delivers EvComplete 1 ACT_ESUCCESS; the ledger goes from (1,0,0) to (1,1,0); the stream gains 302 ... 103 and the prompt);
+   a refusal in the client half and a destroyed client: C02_terminal_only_from_completions_nonvacuous *)
+Example C03_terminal_only_from_completions_nonvacuous :
+  DaemonE2EEx.last_pass DaemonE2EEx.query_rounds =
+    Some ([(1, Some PM_STATUS_PLUGS, DaemonE2EEx.banner)],
+          [(1, None, DaemonE2EEx.banner ++ render [TLine 302 (bslit "on:      n1"); TLine 302 (bslit "off:     "); TLine 302 (bslit "unknown: ");
+                                                   TLine 103 (bslit "Query complete"); TPrompt])],
+          [SysDev 0 (EvWrote (bslit "st p1\n")); SysDev 0 (EvMatched 2); SysDev 0 (EvComplete 1 ACT_ESUCCESS [])],
+          mkL 1 0 0, mkL 1 1 0, [[mkArg (bslit "n1") ST_ON RT_NONE (Some (bslit "on"))]], [bslit "n1"]).
+Proof. exact DaemonE2EEx.query_example. Qed.
+Print Assumptions C03_terminal_only_from_completions.
+
+(* ------------------------------------------------------------------------------------------------------------------
+   WHOSE EXPECT A REPORTED STATE STEMS FROM (Proofs/DeviceWritesExpect.v, Proofs/DaemonE2EExpect.v, Proofs/SpecOwnExpect.v).
+
+   The static check own_ok (spelled out below): through every script a bit "an expect of THIS script has been passed on every path
+   to this point" is threaded - set by `expect`, unchanged by every other statement; a foreach / ifon / ifoff block is entered with
+   the bit of the point in front of it and, since the block may be skipped, left with that same bit - and every setplugstate /
+   setresult must stand at a point where the bit is set.  (Spec/SpecCheckSpec.sub_safe says the same of the traces of its run
+   semantics; C17's checker - rule R_NOEXPECT - threads the same bit: C03_spec_ok_own_ok.)
+
+   A fourth external ghost per device, next to the ledgers of C03_end_to_end_reported: `option xprov` = "the sub-matches the device
+   holds were set by THIS successful expect of the action now at the head of its queue, in the current run of its script" (client
+   id, result list and command of that action; the pattern; the unread device bytes it was matched on; the match array).  It is
+   computed by functions that only CALL the model (spelled out below): SET only by an `expect` statement of the head action that
+   matched; CLEARED by an expect that does not match (the model clears the sub-matches too), when the head action times out, fails or
+   ends (the next action starts with no ghost), and whenever the device is not connected or its descriptor fails (the connection is
+   re-made and the head action is rewound behind a fresh login: _rewind_action); left alone by everything else, in particular by the
+   client half of a pass, which only appends actions behind the queues.  The write events of C03_end_to_end_reported are computed
+   once more, each PAIRED with the ghost of its device at the moment its statement ran (the extended ledger drun_x / dstep_x).
+
+   C03_reported_by_own_expect: in every pass of every run from start-up of a daemon all of whose devices' scripts pass own_ok,
+     (1) the extended ledger holds the SAME write events, in the same order, as the report ledger Rb of C03_end_to_end_reported - so
+         every on / off / value of every query reply is justified by an event of it (C03_end_to_end_reported (3));
+     (2) every event w is paired with Some pv: a successful expect (pattern xp_re pv matched on the non-empty unread device bytes
+         xp_buf pv, match array xp_pm pv) whose sub-matches are exactly the ones the event's setplugstate / setresult statement read
+         (model_xm of the device state sdk in which it ran: C03_write_events_spelled_out); pv carries w's client id and result list
+         and the command of the action that ran the statement.  That it was executed by the same ACTION (a command may queue several
+         actions with the same id, list and command on one device, one per plug) in the same run of its script, earlier, is how the
+         ghost is made: it is cleared whenever the head action ends, fails, times out or is rewound, so a ghost that is set was set
+         by an expect of the action that is at the head now, after it last (re)started - and only the head action executes statements.
+   C03_shipped_own_expect / C03_spec_ok_own_ok: the hypothesis holds for devices configured with any shipped specification (sweep
+     over the regenerated Gen/GenSpecs.v) and with any specification that passes C17's checker.
+   C03_own_expect_needed: without it the claim fails - a status script that is a bare `setplugstate` reads the sub-matches the login
+     action's expect left on the device (the ghost is None).
+   NOT claimed, and false of the model and of device.c alike (C03_reported_bytes_after_request_refuted): that the bytes the action's
+     expect matched were SENT by the device after the action started.  dev->from keeps what earlier expects did not consume (it is
+     emptied only by _disconnect), so a device that answers one query with more than the script consumes has the rest taken for
+     its answer to the next query. *)
+From PM Require Import Gen.GenSpecs Model.SpecCheck Model.DevHarness Proofs.DeviceWritesExpect Proofs.DaemonE2EExpect Proofs.SpecOwnExpect.
+From PM Require Proofs.DaemonE2EExpectEx.
+Theorem C03_reported_by_own_expect : forall expand_str ranged_sorted ranged_plain sorted rmatch compress short_circuit st0 now plans rs r,
+  boot compress st0 -> Forall (fun d => own_ok (dv_scripts d) = true) (dm_devs st0) -> Z.of_nat (length rs) < INT_MAX - 1 ->
+  exists st1 o1, dinit st0 now plans = Ok (st1, o1) /\
+  match drun expand_str ranged_sorted ranged_plain sorted rmatch compress short_circuit st1 rs [] with
+  | Ok (st, _) =>
+    match dstep expand_str ranged_sorted ranged_plain sorted rmatch compress short_circuit st r with
+    | Ok (stb, _) =>
+        let Rb := dstep_rep expand_str ranged_sorted ranged_plain sorted rmatch compress short_circuit st r
+                    (drun_rep expand_str ranged_sorted ranged_plain sorted rmatch compress short_circuit st1 rs []) in
+        let Xb := dstep_x expand_str ranged_sorted ranged_plain sorted rmatch compress short_circuit st r
+                    (drun_x expand_str ranged_sorted ranged_plain sorted rmatch compress short_circuit st1 rs ([], map (fun _ => None) (dm_devs st1))) in
+        (* (1) *)
+        map fst (fst Xb) = Rb /\
+        (* (2) *)
+        forall w og, In (w, og) (fst Xb) ->
+          exists pv, og = Some pv /\ xp_client pv = rp_client w /\ xp_slot pv = Some (rp_slot w) /\
+            (xp_buf pv <> [] /\ rmatch (xp_re pv) (nul_to_ff (xp_buf pv)) = Some (xp_pm pv)) /\
+            exists sdk ak storek, stmt_reports rmatch sdk ak storek w /\
+              ScriptRefine.model_xm sdk = Some (nul_to_ff (xp_buf pv), xp_pm pv) /\ a_com ak = xp_com pv
+    | _ => False
+    end
+  | _ => False
+  end.
+Proof. exact c03_reported_by_own_expect_spelled. Qed.
+(* the check and the ghost, spelled out *)
+Theorem C03_own_expect_spelled_out :
+  (* the check *)
+  (forall scripts, own_ok scripts = forallb (fun p => ck_block false (snd p)) scripts) /\
+  (forall h s r, ck_block h (s :: r) = (ck_stmt h s && ck_block (match s with Expect _ => true | _ => h end) r)%bool) /\ (forall h, ck_block h [] = true) /\
+  (forall h s, ck_stmt h s = match s with
+                             | SetPlugState _ _ _ _ | SetResult _ _ _ => h
+                             | ForeachPlug b | ForeachNode b | IfOn b | IfOff b => ck_block h b
+                             | _ => true
+                             end) /\
+  (* one statement of the head action a on device state sd *)
+  (forall rmatch now sd a store g, xg_stmt rmatch now sd a store g =
+     match a_exec a with
+     | e :: _ =>
+       match cur e with
+       | Some (Expect re) =>
+           match process_expect rmatch now sd a store re with
+           | Ok (true, sd', _, _, _) =>
+               match sd_xm sd' with
+               | Some (_, pm) => Some (mkXprov (a_client a) (a_args a) (a_com a) re (sd_from sd) pm)
+               | None => None
+               end
+           | _ => None
+           end
+       | _ => g
+       end
+     | [] => g
+     end) /\
+  (* one iteration of _process_action's loop: the events of DeviceWrites.pa_reports, each with the ghost at its statement; the ghost afterwards *)
+  (forall rmatch compress sc now d store g, pa_x rmatch compress sc now d store g =
+     match dv_acts d with
+     | [] => ([], g)
+     | act0 :: _ =>
+       match a_exec act0 with
+       | [] => ([], g)
+       | _ =>
+         let stamp := match a_stamp act0 with Some t => t | None => now end in
+         let act := set_stamp (Some stamp) act0 in
+         if stamp + dv_timeout d <=? now then ([], None)
+         else if negb (connected d) then ([], g)
+         else
+           match do_while rmatch compress sc 8 now (dv d) act store [] None with
+           | Ok ((fin, _, act', _, _), _) =>
+               let xg := dw_x rmatch compress sc 8 now (dv d) act store g in
+               (fst xg, if negb fin then snd xg
+                        else if Z.eqb (a_err act') ACT_ESUCCESS then match a_exec (advance act') with [] => None | _ => snd xg end
+                        else None)
+           | _ => ([], g)
+           end
+       end
+     end) /\
+  (* the statements of one do..while round *)
+  (forall rmatch compress sc f now sd a store g, dw_x rmatch compress sc (S f) now sd a store g =
+     match process_stmt rmatch compress sc now sd a store with
+     | Ok ((_, sd', a', store', _), _) =>
+         let g1 := xg_stmt rmatch now sd a store g in
+         if Nat.ltb (length (a_exec a)) (length (a_exec a'))
+         then let '(xs, g2) := dw_x rmatch compress sc f now sd' a' store' g1 in (map (fun w => (w, g)) (stmt_report rmatch sd a store) ++ xs, g2)
+         else (map (fun w => (w, g)) (stmt_report rmatch sd a store), g1)
+     | _ => ([], g)
+     end) /\
+  (* descriptor, reconnect, ping: the ghost survives only on a connected device whose descriptor gave no error *)
+  (forall d pin g, xg_front d pin g =
+     if connected d then
+       match (if dv_has_fd d && any_flag pin then handle_ready d pin else Ok (false, d, [])) with
+       | Ok (false, _, _) => g
+       | _ => None
+       end
+     else None) /\
+  (* one device's share of dev_post_poll *)
+  (forall rmatch compress sc now d store tmo pin g, pp_x rmatch compress sc now d store tmo pin g =
+     match DeviceMask.pp_front now d tmo pin with
+     | Ok (d3, t3, pl, _) => pas_x rmatch compress sc (pa_fuel d3) now d3 store t3 pl (xg_front d pin g)
+     | _ => ([], g)
+     end) /\
+  (forall rmatch compress sc f now d store tmo plans g, pas_x rmatch compress sc (S f) now d store tmo plans g =
+     match pa_step rmatch compress sc now d store tmo plans with
+     | Ok (PaDone _ _ _ _ _) => pa_x rmatch compress sc now d store g
+     | Ok (PaNext d' store' tmo' _) =>
+         let x1 := pa_x rmatch compress sc now d store g in
+         let x2 := pas_x rmatch compress sc f now d' store' tmo' plans (snd x1) in (fst x1 ++ fst x2, snd x2)
+     | _ => ([], g)
+     end) /\
+  (* dev_post_poll from device i on (the same walk as the report ledger's dl_reports), a pass, a run *)
+  (forall expand_str ranged_sorted ranged_plain sorted rmatch compress short_circuit,
+     (forall n now st i pins tmo G, dl_x ranged_sorted rmatch compress short_circuit (S n) now st i pins tmo G =
+        match nth_error (dm_devs st) i with
+        | None => ([], G)
+        | Some d =>
+          let x1 := pp_x rmatch compress short_circuit now d (dm_store st) tmo
+                         (fst (with_pre (nth i (dm_pipe st) true) (nth i (dm_tel st) Telnet.telnet_init) (hd passin0 pins))) (nth i G None) in
+          let G1 := upd_nth G i (fun _ => snd x1) in
+          match dev_loop ranged_sorted rmatch compress short_circuit 1 now st i pins tmo [] with
+          | Ok (st2, tmo', _) => let x2 := dl_x ranged_sorted rmatch compress short_circuit n now st2 (S i) (tl pins) tmo' G1 in (fst x1 ++ fst x2, snd x2)
+          | _ => (fst x1, G1)
+          end
+        end) /\
+     (forall st r X, dstep_x expand_str ranged_sorted ranged_plain sorted rmatch compress short_circuit st r X =
+        match cli_post_poll expand_str ranged_sorted ranged_plain sorted st r with
+        | Ok (sta, _) => let x := dl_x ranged_sorted rmatch compress short_circuit (length (dm_devs sta)) (r_now r) sta O (r_dev r) None (snd X) in (fst X ++ fst x, snd x)
+        | _ => X
+        end) /\
+     (forall st r rs X, drun_x expand_str ranged_sorted ranged_plain sorted rmatch compress short_circuit st (r :: rs) X =
+        match dstep expand_str ranged_sorted ranged_plain sorted rmatch compress short_circuit st r with
+        | Ok (st1, _) => drun_x expand_str ranged_sorted ranged_plain sorted rmatch compress short_circuit st1 rs
+                                (dstep_x expand_str ranged_sorted ranged_plain sorted rmatch compress short_circuit st r X)
+        | _ => X
+        end)).
+Proof.
+  repeat split; try reflexivity.
+  - intros h s. destruct s; cbn [ck_stmt]; try reflexivity; apply ck_blk_eq.
+Qed.
+(* the hypothesis: every shipped specification, whatever device name, plug list, time-out and ping period the configuration attaches to it;
+   every specification that passes C17's checker *)
+Theorem C03_shipped_own_expect : forall file s name plugs timeout ping,
+  In (file, s) all_specs -> own_ok (dv_scripts (mk_device name plugs (sp_scripts s) timeout ping)) = true.
+Proof. exact shipped_own_ok. Qed.
+Theorem C03_spec_ok_own_ok : forall s, spec_ok s = true -> own_ok (sp_scripts s) = true.
+Proof. exact spec_ok_own_ok. Qed.
+(* non-vacuity (Proofs/DaemonE2EExpectEx.v; evaluated): the daemon of C03_end_to_end_reported_nonvacuous, `status n1` answered `on`: its scripts
+   pass the check; the extended ledger after the fifth pass holds the one write event (list 0, client 1, d0, n1, ST_ON, "on") paired with
+   the expect of client 1's action for list 0 and PM_STATUS_PLUGS, pattern `(on|off)`, matched on the unread bytes "on" *)
+Example C03_reported_by_own_expect_nonvacuous :
+  own_ok DaemonE2EEx.e2e_scripts = true /\
+  DaemonE2EExpectEx.x_view DaemonE2EEx.e2e_st DaemonE2EEx.query_rounds =
+    Some ([(mkReport 0 1 (bslit "d0") false (bslit "n1") ST_ON (bslit "on"),
+            Some (mkXprov 1 (Some O) PM_STATUS_PLUGS (bslit "(on|off)") (bslit "on") [Some (O, 2%nat); Some (O, 2%nat)]))],
+          [DaemonE2EEx.banner ++ render [TLine 302 (bslit "on:      n1"); TLine 302 (bslit "off:     "); TLine 302 (bslit "unknown: ");
+                                         TLine 103 (bslit "Query complete"); TPrompt]]).
+Proof. exact DaemonE2EExpectEx.own_example. Qed.
+(* the hypothesis is needed: device d0 with the status script `setplugstate "p1" $0 on="ok"` (no expect of its own; own_ok fails).  `status n1`:
+   the write event - n1 = ON from the text "ok" - read the sub-matches of the LOGIN action's `expect "ok"`; its ghost is None, and the
+   client is told `on: n1` *)
+Example C03_own_expect_needed :
+  own_ok DaemonE2EExpectEx.bad_scripts = false /\
+  DaemonE2EExpectEx.x_view DaemonE2EExpectEx.bad_st DaemonE2EExpectEx.bad_rounds =
+    Some ([(mkReport 0 1 (bslit "d0") false (bslit "n1") ST_ON (bslit "ok"), None)],
+          [DaemonE2EEx.banner ++ render [TLine 302 (bslit "on:      n1"); TLine 302 (bslit "off:     "); TLine 302 (bslit "unknown: ");
+                                         TLine 103 (bslit "Query complete"); TPrompt]]).
+Proof. exact DaemonE2EExpectEx.bad_example. Qed.
+(* refuted: "the bytes an action's expect matches were sent by the device after the action started".  The daemon of
+   C03_end_to_end_nonvacuous (its scripts pass own_ok); the device answers the first `status n1` with `onoff`; the reply is `on: n1`.  A second
+   `status n1` arrives in the sixth pass; the device sends NOTHING more (the rounds deliver no further byte), and the seventh pass answers
+   `off: n1`: the second action's own expect (ghost: client 1, list 1) matched the left-over bytes "off" *)
+Example C03_reported_bytes_after_request_refuted :
+  map (fun r => match r_dev r with [p] => pi_read p | _ => None end) (skipn 5 DaemonE2EExpectEx.late_rounds) = [None; None] /\
+  DaemonE2EExpectEx.x_view DaemonE2EEx.e2e_st DaemonE2EExpectEx.late_rounds =
+    Some ([(mkReport 0 1 (bslit "d0") false (bslit "n1") ST_ON (bslit "on"),
+            Some (mkXprov 1 (Some O) PM_STATUS_PLUGS (bslit "(on|off)") (bslit "onoff") [Some (O, 2%nat); Some (O, 2%nat)]));
+           (mkReport 1 1 (bslit "d0") false (bslit "n1") ST_OFF (bslit "off"),
+            Some (mkXprov 1 (Some 1%nat) PM_STATUS_PLUGS (bslit "(on|off)") (bslit "off") [Some (O, 3%nat); Some (O, 3%nat)]))],
+          [DaemonE2EEx.banner ++ render [TLine 302 (bslit "on:      n1"); TLine 302 (bslit "off:     "); TLine 302 (bslit "unknown: ");
+                                         TLine 103 (bslit "Query complete"); TPrompt;
+                                         TLine 302 (bslit "on:      "); TLine 302 (bslit "off:     n1"); TLine 302 (bslit "unknown: ");
+                                         TLine 103 (bslit "Query complete"); TPrompt]]).
+Proof. exact (conj eq_refl DaemonE2EExpectEx.late_example). Qed.
+Print Assumptions C03_reported_by_own_expect.
+Print Assumptions C03_own_expect_spelled_out.
+Print Assumptions C03_shipped_own_expect.
+Print Assumptions C03_spec_ok_own_ok.
